@@ -47,4 +47,17 @@ def skelExportSnapshotExpected : List String :=
 
 theorem skelExportSnapshot_expected : skelExportSnapshot = skelExportSnapshotExpected := rfl
 
+/-- the structure the model of `ReadSnapshotBlock` was written against -/
+def skelReadSnapshotBlockExpected : List String :=
+  ["0:assign:=", "0:if", "1:return2", "0:assign:=", "0:assign:=", "0:if", "1:assign=", "0:if", "1:return2",
+   "0:if", "1:return2", "0:return2"]
+
+theorem skelReadSnapshotBlock_expected : skelReadSnapshotBlock = skelReadSnapshotBlockExpected := rfl
+
+/-- the structure the model of `ImportSnapshot` was written against -/
+def skelImportSnapshotExpected : List String :=
+  ["0:return1"]
+
+theorem skelImportSnapshot_expected : skelImportSnapshot = skelImportSnapshotExpected := rfl
+
 end F3.SkelTie.SkelStore
